@@ -84,6 +84,11 @@ def injections(ver, o, rng):
                 oo = copy.deepcopy(o)
                 corrupt.setp(oo, s.path, val)
                 yield lab, s.section, oo
+            if ver == "2.0":
+                # a type only the other specification version defines is, in a 2.0 object, a type outside the specification
+                oo = copy.deepcopy(o)
+                corrupt.setp(oo, s.path, "%s--%s" % (rng.choice(["location", "grouping", "infrastructure", "note", "opinion", "malware-analysis", "language-content"]), u))
+                yield "reference-to-type-of-the-other-version", s.section, oo
         elif k == "extensions" and isinstance(v, dict):
             oo = copy.deepcopy(o)
             corrupt.get(oo, s.path)["x-unregistered-ext"] = {"some_prop": 1}
@@ -569,7 +574,7 @@ def floors(m, tier):
     sites = m["seen"].get("sites", set())
     if c.get("instance_injections", 0) < 100:
         out.append("fewer than 100 pre-built-instance injections (%d)" % c.get("instance_injections", 0))
-    for s in ("custom-property", "custom-hash-algorithm", "reference-to-x-type", "reference-to-unregistered-type", "unregistered-extension",
+    for s in ("custom-property", "custom-hash-algorithm", "reference-to-x-type", "reference-to-unregistered-type", "reference-to-type-of-the-other-version", "unregistered-extension",
               "unregistered-member", "unregistered-observable", "none"):
         if s not in sites:
             out.append("injection site %s never exercised" % s)
